@@ -1,6 +1,6 @@
 \* trace validation for C13; tools/props/C13.py generates the same file with Dev = the deviations currently listed as known
 CONSTANTS NT = 3  NS = 6  PipeNames = {"s"}  NRes = 3
-          MaxRecs = 1000000  MaxSets = 1000000  MaxArgs = 3  MaxFlush = 1000000  MaxNull = 1000000  LgSet = {1, 2, 3}
+          MaxRecs = 1000000  MaxSets = 1000000  MaxArgs = 3  MaxFlush = 1000000  MaxNull = 1000000  MaxAdd = 1000000  LgSet = {1, 2, 3}
           MaxScope = 1000000  MaxNest = 3
           NSev = 6  NBody = 20  NTs = 20  NId = 5  NFl = 3  NAK = 12  NAV = 20  MaxMap = 12  NEv = 10  NName = 5
           GenDepth = 0  Hist = FALSE
